@@ -157,7 +157,9 @@ def load(R):
     R.contract(B + "is_all_memoized", prop="C05", types={"self": BE, "fns": TList(FWA)}, returns=TBool,
                requires=["COH(self)"],
                ensures=["COH(self)", "STORE_SAME(self)",
-                        "result == forall(int, lambda j: implies(0 <= j and j < len(fns), FKEY(fns[j].fn_reference, fns[j].arg_hash) in self._metadata_source.mementos))"])
+                        "result == forall(int, lambda j: implies(0 <= j and j < len(fns), FKEY(fns[j].fn_reference, fns[j].arg_hash) in self._metadata_source.mementos))"],
+               loops={1: ["len(comp_result) == loop_i", "forall(int, lambda j: implies(0 <= j and j < loop_i, same(comp_result[j].fn_reference, fns[j].fn_reference) and comp_result[j].arg_hash == fns[j].arg_hash))"]},
+               labels={"comp_types": {1: TObj("nn:FunctionReferenceWithArgHash")}})
 
     R.contract(B + "get_mementos", prop="C05", types={"self": BE, "fns": TList(FWH)}, returns=TList(TObj("Memento")),
                requires=["COH(self)", "STORE_OK(self)"],
@@ -171,3 +173,41 @@ def load(R):
                requires=["COH(self)"], ensures=["COH(self)", "STORE_SAME(self)", "CACHE_SAME(self)"])
     R.contract(B + "list_mementos", prop="C05", types={"self": BE, "fn": FR, "limit": TOpt(TInt)}, returns=TList(TObj("Memento")),
                requires=["COH(self)"], ensures=["COH(self)", "STORE_SAME(self)", "CACHE_SAME(self)"])
+
+    # ---------------------------------------------------------------- custom metadata (C05 clause "write and read custom metadata", C19)
+    R.spec("MK", ["f", "key"], "HK(f) + '|' + key")
+    R.contract(P + "write_metadata", assumed=True, types={"self": MS, "fn_with_arg_hash": FWH, "key": TStr, "value": TObj(), "stored_with_data": TBool},
+               ensures=["self.writes == old(self.writes) + 1", "MK(fn_with_arg_hash, key) in self.meta", "same(self.meta[MK(fn_with_arg_hash, key)], value)",
+                        "self.meta_with_data[MK(fn_with_arg_hash, key)] == stored_with_data",
+                        "forall(str, lambda k: implies(k != MK(fn_with_arg_hash, key), (k in self.meta) == old(k in self.meta) and same(self.meta[k], old(self.meta[k])) and self.meta_with_data[k] == old(self.meta_with_data[k])))"],
+               modifies=["self.meta", "self.meta_with_data", "self.writes"])
+    R.contract(P + "read_metadata", assumed=True, types={"self": MS, "fn_with_arg_hash": FWH, "key": TStr, "retry_on_none": TBool}, returns=TObj(),
+               ensures=["implies(MK(fn_with_arg_hash, key) not in self.meta, result is None)",
+                        "implies(MK(fn_with_arg_hash, key) in self.meta and not self.meta_with_data[MK(fn_with_arg_hash, key)], same(result, self.meta[MK(fn_with_arg_hash, key)]) and not isinstance(result, ResultIsWithData))",
+                        "implies(MK(fn_with_arg_hash, key) in self.meta and self.meta_with_data[MK(fn_with_arg_hash, key)], isinstance(result, ResultIsWithData))"])
+    D = "storage_base:DataSource."
+    R.contract(D + "output_metadata", assumed=True, types={"self": DS, "content_key": VKey, "metadata_key": TStr, "value": TObj()},
+               ensures=["self.writes == old(self.writes) + 1", "same(self.meta[content_key.key + '#' + content_key.version + '|' + metadata_key], value)"],
+               raises={"OSError+": []}, modifies=["self.meta", "self.writes"])
+    R.contract(D + "input_metadata", assumed=True, types={"self": DS, "content_key": TOpt(VKey), "metadata_key": TStr}, returns=TObj(),
+               raises={"OSError+": []}, ensures=["implies(content_key is not None, same(result, self.meta[content_key.key + '#' + content_key.version + '|' + metadata_key]))"])
+
+    R.contract(B + "write_metadata", prop="C05", types={"self": BE, "fn_with_arg_hash": FWH, "key": TStr, "value": TObj(), "store_with_content_key": TOpt(VKey)},
+               requires=["COH(self)"],
+               ensures=["not self.read_only", "COH(self)",
+                        "forall(str, lambda k: (k in self._metadata_source.mementos) == old(k in self._metadata_source.mementos) and same(self._metadata_source.mementos[k], old(self._metadata_source.mementos[k])))",
+                        "MK(fn_with_arg_hash, key) in self._metadata_source.meta",
+                        "implies(store_with_content_key is None, same(self._metadata_source.meta[MK(fn_with_arg_hash, key)], value) and not self._metadata_source.meta_with_data[MK(fn_with_arg_hash, key)])",
+                        "implies(store_with_content_key is not None, self._metadata_source.meta_with_data[MK(fn_with_arg_hash, key)] "
+                        "and same(self._data_source.meta[store_with_content_key.key + '#' + store_with_content_key.version + '|' + key], value))"],
+               raises={"ValueError": ["[C05,C19] self.read_only", "[C19] STORE_SAME(self)", "[C19] CACHE_SAME(self)",
+                                      "[C19] forall(str, lambda k: (k in self._data_source.meta) == old(k in self._data_source.meta) and same(self._data_source.meta[k], old(self._data_source.meta[k])))",
+                                      "[C19] forall(str, lambda k: (k in self._metadata_source.meta) == old(k in self._metadata_source.meta) and same(self._metadata_source.meta[k], old(self._metadata_source.meta[k])))"],
+                       "OSError+": ["not self.read_only"]})
+
+    R.contract(B + "read_metadata", prop="C05", types={"self": BE, "fn_with_arg_hash": FWH, "key": TStr, "retry_on_none": TBool}, returns=TObj(),
+               requires=["COH(self)", "STORE_OK(self)"],
+               ensures=["COH(self)", "STORE_SAME(self)",
+                        "implies(MK(fn_with_arg_hash, key) not in self._metadata_source.meta, ret is None)",
+                        "implies(MK(fn_with_arg_hash, key) in self._metadata_source.meta and not self._metadata_source.meta_with_data[MK(fn_with_arg_hash, key)], same(ret, self._metadata_source.meta[MK(fn_with_arg_hash, key)]))"],
+               raises={"OSError+": ["STORE_SAME(self)"]})
